@@ -255,7 +255,10 @@ class Gen:
                 self.st("decl str")
                 return "%s := %s" % (name, e)
             self.st("decl map")
-            e = r.choice(['{}', '{"a": %s}' % self.int_expr(sc, 2), '{b: 2}'])
+            e = r.choice(['{}', '{"a": %s}' % self.int_expr(sc, 2), '{b: 2}',
+                          '{"a": %s, b: %s}' % (self.t(self.int_expr(sc, 2)), self.t(self.int_expr(sc, 2))),
+                          '{b: %s, "a": %s, "c": %s}' % (self.t(self.int_expr(sc, 2)), self.t("1"), self.t(self.int_expr(sc, 2))),
+                          '{"a": %s, "a": %s}' % (self.t("1"), self.t("2"))])
             sc.vars[name] = 'm'
             return "%s := %s" % (name, e)
         if k < 7:
